@@ -122,46 +122,56 @@ static void hook_event(int id, const void *obj, const double *x, double v, int r
     switch (id) {
     case 1: {                   /* nlopt_optimize entry */
         const nlopt_opt o = (const nlopt_opt) obj;
-        fprintf(out, "E 1 d=%d x=", depth); phexlist(out, x, x ? (int) o->n : 0);
-        fprintf(out, " "); dump_opt(out, o); fprintf(out, "\n");
+        if (depth == 0) {
+            fprintf(out, "E 1 d=%d x=", depth); phexlist(out, x, x ? (int) o->n : 0);
+            fprintf(out, " "); dump_opt(out, o); fprintf(out, "\n");
+        }
         ++depth;
         break;
     }
     case 2: {
         const nlopt_opt o = (const nlopt_opt) obj;
         --depth;
-        fprintf(out, "E 2 d=%d ret=%d optf=", depth, r); phex(out, v);
-        fprintf(out, " x="); phexlist(out, x, x ? (int) o->n : 0);
-        fprintf(out, " numevals=%d\n", o->numevals);
+        if (depth == 0) {
+            fprintf(out, "E 2 d=%d ret=%d optf=", depth, r); phex(out, v);
+            fprintf(out, " x="); phexlist(out, x, x ? (int) o->n : 0);
+            fprintf(out, " numevals=%d\n", o->numevals);
+        }
         break;
     }
     case 10: {                  /* nlopt_optimize_ entry: the problem handed to the algorithm */
         const nlopt_opt o = (const nlopt_opt) obj;
+        static int nested_dumps = 0;
+        if (depth >= 2 && ++nested_dumps > 12) break;   /* sub-optimizer problems: the first few only */
         fprintf(out, "E 10 d=%d x=", depth); phexlist(out, x, (int) o->n);
         fprintf(out, " "); dump_opt(out, o); fprintf(out, "\n");
         break;
     }
     case 11: {                  /* nlopt_optimize_ returned */
         const nlopt_opt o = (const nlopt_opt) obj;
+        if (depth >= 2) break;
         fprintf(out, "E 11 d=%d ret=%d minf=", depth, r); phex(out, v);
         fprintf(out, " x="); phexlist(out, x, (int) o->n);
         fprintf(out, " numevals=%d fstop=%d\n", o->numevals, o->force_stop);
         break;
     }
     case 20: case 22: case 30: case 40:        /* wrapper entry: x, r = 2n + (grad != NULL) */
+        if (depth >= 2 && id != 40) break;
         fprintf(out, "E %d d=%d g=%d x=", id, depth, r & 1); phexlist(out, x, r >> 1); fprintf(out, "\n");
         break;
     case 21: case 41:          /* wrapper exit: value, gradient as returned to the caller */
+        if (depth >= 2 && id != 41) break;
         fprintf(out, "E %d d=%d val=", id, depth); phex(out, v);
         fprintf(out, " grad="); phexlist(out, x, r); fprintf(out, "\n");
         break;
     case 31:                   /* memoize exit: incumbent */
+        if (depth >= 2) break;
         fprintf(out, "E 31 d=%d minf=", depth); phex(out, v);
         fprintf(out, " bestx="); if (v < 1.7976931348623157e308) phexlist(out, x, r); else fprintf(out, "?");
         fprintf(out, "\n");
         break;
     default:
-        fprintf(out, "E %d d=%d r=%d v=", id, depth, r); phex(out, v); fprintf(out, "\n");
+        if (depth <= 1) { fprintf(out, "E %d d=%d r=%d v=", id, depth, r); phex(out, v); fprintf(out, "\n"); }
     }
 }
 
